@@ -380,7 +380,12 @@ def closeCells (g : Glob) : List Nat → Except Err Glob
     match g.cells[id]? with
     | some (.opn a n) => do
       let ws ← readN g.mem a n
-      closeCells { g with cells := g.cells.setIfInBounds id (.closed ws) } ids
+      -- since /repo bdbbb70 (`Close`/`CloseHeapClosure` only mark the closure as escaping; the VM closes the open cells of a
+      -- frame when that frame RETURNS) the cell stays open here: the variable lives on in its frame and every closure that
+      -- captured it keeps seeing assignments.  Regions of this model are never reused, so an open cell stays readable after
+      -- its frame returned: closing it at the return would copy the same words (`ws` is read to keep the access check).
+      let _ := ws
+      closeCells { g with cells := g.cells.setIfInBounds id (.opn a n) } ids
     | _ => closeCells g ids
 
 /-- `close_upvalues_by_idx` (a word that is no live closure handle is ignored, as `CloseHeapClosure` does) -/
@@ -677,6 +682,13 @@ def enterFrame (f : Fn) (fi : Nat) (clo : Option Nat) (g : Glob) (ws : List UInt
   let (g1, regs) := enterArgs g f.args ws 0 regs0
   (⟨fi, regs, [], clo⟩, g1)
 
+/-- `Machine::close_frame_upvalues` (/repo bdbbb70): when a frame returns, every still-open cell that points into the words it
+allocated (addresses from `base` on) keeps the words the variable holds now -/
+def closeFrame (base : Nat) (g : Glob) : Glob :=
+  { g with cells := g.cells.map (fun c => match c with
+      | .opn a n => if base ≤ a then (match readN g.mem a n with | .ok ws => .closed ws | .error _ => c) else c
+      | c => c) }
+
 def runFn (P : Prog) : Nat → CallF
   | 0, _, _, _, _, _, _ => .error .fuel
   | n + 1, fi, ws, clo, g, st, tr =>
@@ -685,7 +697,7 @@ def runFn (P : Prog) : Nat → CallF
     | some f =>
       let (fr, g1) := enterFrame f fi clo g ws
       match runBlocksM (runFn P n) P f (f.blocks.length + 1) 0 0 ⟨fr, g1, st, tr⟩ with
-      | .ret (.ok (out, s)) => .ok (out, s.g, s.st, s.tr)
+      | .ret (.ok (out, s)) => .ok (out, closeFrame g.mem.size s.g, s.st, s.tr)
       | .ret (.error e) => .error e
       | .err e => .error e
       | .more _ _ _ => .error .fuel
